@@ -240,7 +240,7 @@ var componentsReal = []string{
 }
 
 var componentsSim = []string{
-	"marker entropy (gonanoid.BytesGenerator)", "failure/crash behaviour of os.WriteFile/OpenFile/Create/Stat (import-level facade)",
+	"marker entropy (gonanoid.BytesGenerator)", "failure/crash behaviour of os.WriteFile/OpenFile/Create/CreateTemp/Rename/Link/Stat (import-level facade)", "arrival of SIGINT/SIGTERM/SIGHUP at a chosen intercepted call",
 	"clock (time.Now/Since/Until/Sleep) and pid/hostname values", "process environment, cwd, argv",
 }
 
